@@ -5,7 +5,7 @@ open Pox Pox.Proto Pox.Recoco
 /-! Line-protocol driver of the recoco scheduler model (C06).
 
 request  {"t0":T,"budget":N,"progs":[[y,…],…],"tasks":[k,…],"timers":[[delay,recurring,selfStop,falseAt|null],…],
-          "r":[T|null,…],"w":[…],"x":[…],"send":[n|null,…],"recv":[n|null,…]}
+          "r":[T|null,…],"w":[…],"x":[…],"send":[n|null,…],"recv":[n|null,…],"fix_send":bool,"fix_empty_sub":bool}
   y ::= ["num",n] | ["block"] | ["sleep",d|null] | ["sleepabs",w] | ["select",r|null,w|null,x|null,to|null]
       | ["recv",fd,to|null] | ["send",fd,len,to|null,bs] | ["exit"] | ["raise",n] | ["again",k,catch] | ["cancel",j]
 response {"trace":[["s",tid,idx,time,recv,wake] | ["f",tid,n,time] …],"quit","crashed","cycles","now","ready","incoming","hub"}
@@ -82,7 +82,8 @@ def handle (j : J) : Except String J := do
   let tasks ← j.nats "tasks"
   let timers ← (← j.array "timers").mapM timerJ
   let tab (k : String) : Except String (List (Option Nat)) := do (← j.array k).mapM optNatJ
-  let cfg : Cfg := { progs := progs, env := { rAt := ← tab "r", wAt := ← tab "w", xAt := ← tab "x" } }
+  let cfg : Cfg := { progs := progs, env := { rAt := ← tab "r", wAt := ← tab "w", xAt := ← tab "x" },
+                     fixSend := ← j.boolean "fix_send", fixEmptySub := ← j.boolean "fix_empty_sub" }
   let s := run cfg budget (initSt t0 tasks timers (← tab "send") (← tab "recv"))
   pure (J.mk [("trace", .arr (s.trace.filterMap (evOut s))), ("quit", .bool s.hasQuit), ("crashed", .bool s.crashed),
               ("cycles", .num s.cycles), ("now", .num s.now), ("ready", J.ofNats s.ready),
